@@ -73,6 +73,11 @@ fn measure(items: &[Item], padded: bool) -> usize {
 impl Prop for C06 {
     type Case = Case;
     const ID: &'static str = "C06";
+    const FUZZ_TARGET: Option<&'static str> = Some("batching");
+    const FUZZ_RUNS: u64 = 4000000;
+    fn fuzz_decode(bytes: &[u8]) -> Option<Case> {
+        crate::fuzzdec::c06(bytes)
+    }
     const RULE: &'static str = "item size vectors (n <= 40, occasionally up to 300, sizes from {0,1,2,3,5,8,L-1,L,L+1,3L} and all-equal vectors) x sort x shuffle x prefetch_factor 0..=5 x batch_limit in 0..=16 or 64 x {BatchSize, PaddedItemSize} x seed (Some, occasionally None). Oracle: end of iteration within n+2 calls, batches partition the ids, no empty batch, every batch with > 1 item within the limit, same seed => same batches; without sort/shuffle the concatenation is the input order and every batch but the last is greedy-maximal. Non-trivial: >= 2 batches and (an oversized or zero-size item, or sort+shuffle with a buffer shorter than three batches). Distinct = distinct serialised case.";
     const CLAIMS_TERMINATION: bool = true;
     const HANG_SECS: u64 = 20;
